@@ -26,6 +26,10 @@ type c18Case struct {
 	// IntrEvery > 0 (concurrent cases): an interrupt token is made pending (buffered interrupt channel, non-blocking send) before every
 	// IntrEvery-th Read, so that data and interrupt are often ready for the same Read; interrupted reads are simply repeated
 	IntrEvery int `json:"intr_every"`
+	// ViaCopy: the writer is fed by io.Copy(writer, source) (as link.go feeds it from a socket) from a source that hands out the
+	// writes one per Read; DataEOF: the source returns its last bytes together with io.EOF, as readers are allowed to
+	ViaCopy bool `json:"via_copy"`
+	DataEOF bool `json:"data_eof"`
 }
 
 type c18Read struct {
@@ -200,6 +204,30 @@ func c18Scripted(c *c18Case) c18Result {
 
 // concurrent: writer goroutine against reader goroutine over a channel of the given capacity;
 // only the end-to-end oracle is recorded.
+// scriptSource hands out the given chunks, one per Read (a chunk larger than the buffer continues in the next Read)
+type scriptSource struct {
+	chunks  [][]byte
+	dataEOF bool
+}
+
+func (s *scriptSource) Read(p []byte) (int, error) {
+	for len(s.chunks) > 0 && len(s.chunks[0]) == 0 {
+		s.chunks = s.chunks[1:]
+	}
+	if len(s.chunks) == 0 {
+		return 0, io.EOF
+	}
+	n := copy(p, s.chunks[0])
+	s.chunks[0] = s.chunks[0][n:]
+	if len(s.chunks[0]) == 0 {
+		s.chunks = s.chunks[1:]
+	}
+	if s.dataEOF && len(s.chunks) == 0 {
+		return n, io.EOF
+	}
+	return n, nil
+}
+
 func c18Concurrent(c *c18Case) c18Result {
 	ch := make(chan *stream.StreamChunk, c.Cap)
 	w := stream.NewChanWriter(ch)
@@ -209,6 +237,19 @@ func c18Concurrent(c *c18Case) c18Result {
 	wg.Add(1)
 	go func() {
 		defer wg.Done()
+		if c.ViaCopy {
+			src := &scriptSource{dataEOF: c.DataEOF}
+			total := 0
+			for _, d := range c.Writes {
+				src.chunks = append(src.chunks, toBytes(d))
+				total += len(d)
+			}
+			if n, err := io.Copy(w, src); n != int64(total) || err != nil {
+				badWrite = fmt.Sprintf("io.Copy of %d bytes into the writer reported (%d, %v)", total, n, err)
+			}
+			w.Close()
+			return
+		}
 		for _, d := range c.Writes {
 			b := toBytes(d)
 			if n, err := w.Write(b); n != len(b) || err != nil {
